@@ -98,7 +98,12 @@ package rlp
 //@ func Decode
 //@   opaque
 
-//@ func Encode
-//@   opaque
 //@ func EncodeToBytes
 //@   opaque
+
+// Trusted: encoding a value into a *bytes.Buffer appends exactly rlpenclen(val) bytes (the
+// encoder itself, driven by reflection, is outside the generator's subset).
+//@ func Encode
+//@   trusted
+//@   ensures result == nil && typeis(w, "*bytes.Buffer") ==> buflen == store(old(buflen), unbox(w, "*bytes.Buffer"), old(buflen)[unbox(w, "*bytes.Buffer")] + rlpenclen(val))
+//@   assigns buflen, inferred
